@@ -25,5 +25,12 @@ def run_part(c):
     if rc != 0:
         c.break_("corr", "c10prim harness run failed", out)
         return
+    for l in out.splitlines():
+        if l.startswith("OBSERVATION codec-alloc "):
+            c.extra["codec_alloc_observations"] = int(l.split()[-1])
+    c.assume("allocation inside the external codec libraries (a damaged snappy / zstd / lz4 / gzip frame header can announce a huge output) is "
+             "exempt, as the property says: the child first runs the codec alone on the payloads the decode can hand to it; inputs on which the "
+             "codec by itself exhausts the memory cap are counted as observations (evidence: codec_alloc_observations), and the codec's share is "
+             "subtracted from the decode's allocation before the 64 MiB test")
     files = [l.split(" ", 1)[1] for l in out.splitlines() if l.startswith("CASEFILE ")]
     c.eval_cases(files, name="primitive layer malformed-input correspondence")
